@@ -21,6 +21,7 @@ from __future__ import annotations
 
 import asyncio
 import os
+from collections.abc import Mapping
 import re
 import sys
 import warnings
@@ -235,6 +236,37 @@ def build_world(es, loop_ref, lazy=False):
     return env, mains, main_src
 
 
+REENTER_SRC = ("{% for i in (1..2) %}{{ i }}-{{ re.x }}[{{ forloop.index }}/{{ forloop.length }}]"
+               "{% cycle 'a', 'b' %}{% endfor %}{% increment c %}")
+
+
+class ReDrop(Mapping):
+    """User data that calls back into the library: looking up `x` renders the very template that is
+    being rendered (with plain data, so the recursion stops there) and returns its output."""
+
+    def __init__(self, template, loop=None):
+        self._t = template
+        self._loop = loop
+
+    def __getitem__(self, k):
+        if k != "x":
+            raise KeyError(k)
+        return self._t.render(re={"x": "in"})
+
+    async def __getitem_async__(self, k):
+        if k != "x":
+            raise KeyError(k)
+        if self._loop is not None:
+            await self._loop.latency("redrop")
+        return await self._t.render_async(re={"x": "in"})
+
+    def __iter__(self):
+        return iter(["x"])
+
+    def __len__(self):
+        return 1
+
+
 REMOVABLE_TAGS = ["cycle", "increment", "echo", "capture", "ifchanged", "tablerow"]
 
 
@@ -426,7 +458,7 @@ class C17:
     REQUIRED_REACH = ["reach.order_variation_compared", "reach.pristine_compared", "reach.render_after_same_template", "reach.render_after_same_env", "reach.clock_advanced_between",
                       "reach.twin_data", "reach.concurrent_same_template", "reach.aborted_render", "fault.cancel_landed",
                       "reach.tz_equal_instants", "reach.implicit_env", "reach.fp_checks", "fault.drop_failed",
-                      "fault.fs_errno", "reach.environment_customised", "reach.burst"]
+                      "fault.fs_errno", "reach.environment_customised", "reach.burst", "reach.reentrant_render"]
 
     def process_init(self):
         fork.init_zygote(evaluate_probe)
@@ -505,7 +537,7 @@ class C17:
         def gen_op():
             uid[0] += 1
             k = rng.weighted([("render", 14), ("advance", 3), ("reparse", 1.5), ("implicit", 1.5), ("env_render", 2),
-                              ("customise", 0.7), ("burst", 0.5)])
+                              ("customise", 0.7), ("burst", 0.5), ("reenter", 0.6)])
             op = {"op": k, "uid": uid[0]}
             if k == "advance":
                 op["us"] = rng.choice([1, 999_999, 1_000_000, 61_000_000, 3_600_000_000, 86_400_000_000,
@@ -523,6 +555,9 @@ class C17:
             if k == "env_render":
                 op["data"] = rng.randrange(len(datas))
                 op["main"] = rng.randrange(len(envs[e]["mains"]))
+                return op
+            if k == "reenter":
+                op["mode"] = rng.choice(["sync", "async"])
                 return op
             if k == "burst":
                 # a burst of requests: many render_async of one template in flight at the same time
@@ -928,6 +963,27 @@ class C17:
                     removed[e] = removed[e] + [op["remove"]]
                     env_fp0[e] = fp_env(worlds[e][0])
                     bump(st, "reach.environment_customised")
+                elif k == "reenter":
+                    # re-entrancy: a drop used inside a loop body renders the same parsed template again
+                    e = op["env"]
+                    env = worlds[e][0]
+                    t = outcome(lambda: env.from_string(REENTER_SRC, name="reenter"))
+                    if t[0] != "ok" or removed[e]:
+                        continue
+                    if op["mode"] == "sync":
+                        inner = outcome(lambda: t[1].render(re={"x": "in"}))
+                        want = outcome(lambda: t[1].render(re={"x": inner[1]})) if inner[0] == "ok" else inner
+                        got = outcome(lambda: t[1].render(re=ReDrop(t[1])))
+                    else:
+                        inner = await outcome_async(t[1].render_async(re={"x": "in"}))
+                        want = (await outcome_async(t[1].render_async(re={"x": inner[1]}))) if inner[0] == "ok" else inner
+                        got = await outcome_async(t[1].render_async(re=ReDrop(t[1], loop)))
+                    bump(st, "reach.reentrant_render")
+                    history.append([op["uid"], "reenter", got[0]])
+                    if inner[0] == "ok" and norm(got) != norm(want):
+                        add("history-independence", "reentrancy:%s" % ("output" if got[0] == "ok" else got[1]),
+                            {"op": op, "with_reentrant_drop": _brief(got), "with_its_value_precomputed": _brief(want)})
+                        return
                 elif k == "burst":
                     e = op["env"]
                     env, mains, _ = worlds[e]
